@@ -209,7 +209,7 @@ OBS_KINDS = (["read:" + f for f in ("repr", "str", "iter", "tolist", "ravel", "l
                 "save", "subset"])
 
 
-def observer_schedule(rng, layout, max_acts=None):
+def observer_schedule(rng, layout, max_acts=None, fault_rate=0.0):
     n_acts = rng.randint(1, max_acts or max(2, min(8, layout.n)))
     acts = []
     for _ in range(n_acts):
@@ -222,7 +222,10 @@ def observer_schedule(rng, layout, max_acts=None):
         if rng.random() < 0.12:
             acts.append([gap, {"k": "force", "v": v}])
         else:
-            acts.append([gap, {"k": "obs", "step": gen_observer(rng, v, layout, gap)}])
+            act = {"k": "obs", "step": gen_observer(rng, v, layout, gap)}
+            if rng.random() < fault_rate:
+                act["fail_alloc"] = rng.choice([0, 0, 1, 1, 2, 3, 4, 5, 6, 8, 10, 13])
+            acts.append([gap, act])
     acts.sort(key=lambda a: a[0])
     return {"eager": False, "acts": acts}
 
